@@ -117,7 +117,7 @@ def setup(chk):
 
 
 KINDS = ["connectReq", "connectEvt", "dConnected", "dClosed", "disconnectReq", "success", "failure", "streamError:conflict",
-         "streamError:ack", "streamError:xmlNotWellFormed", "streamError:unknown", "pingTick", "pong:1", "pong:0", "pongRaises", "loop", "appSend"]
+         "streamError:ack", "streamError:xmlNotWellFormed", "streamError:unknown", "pingTick", "pong:1", "pong:0", "pongRaises", "loop", "appSend", "setReconnect:0", "setReconnect:1"]
 
 
 def cases(chk):
@@ -150,6 +150,9 @@ def cases(chk):
         ["connectReq", "dConnected", "success", "pingTick", "dClosed", "loop", "connectReq", "dConnected", "success", "pingTick", "pong:1", "pingTick", "pingTick"],
         ["connectEvt", "dConnected", "success", "dClosed", "pingTick", "loop", "connectReq", "pingTick", "dConnected", "success", "pingTick"],
         ["connectReq", "dConnected", "success", "pingTick", "streamError:ack", "loop", "dConnected", "success", "pingTick", "pong:1", "pingTick"],
+        # the reconnect option changed at run time: the value in force when the stream error arrives decides
+        ["connectReq", "dConnected", "success", "setReconnect:0", "streamError:ack", "loop", "connectReq", "dConnected", "setReconnect:1", "streamError:unknown", "loop"],
+        ["connectReq", "dConnected", "setReconnect:1", "streamError:xmlNotWellFormed", "setReconnect:0", "loop", "dConnected", "streamError:ack", "loop"],
     ]
     for h in corpus:
         for opt in ({"reconnect": 1, "passive": 0}, {"reconnect": 0, "passive": 1}):
@@ -176,7 +179,7 @@ def cases(chk):
                 e = r.choice(["success", "success", "failure", r.choice(errs), "appSend", "dClosed", "disconnectReq"])
                 st = "authed" if e == "success" else "down" if e != "appSend" else st
             else:
-                e = r.choice(["pingTick", "pingTick", "pingTick", "pong:1", "pong:1", "pongRaises", "pong:0", "appSend", r.choice(errs), "dClosed", "disconnectReq", "success"])
+                e = r.choice(["pingTick", "pingTick", "pingTick", "pong:1", "pong:1", "pongRaises", "pong:0", "appSend", r.choice(errs), "dClosed", "disconnectReq", "success", r.choice(["setReconnect:0", "setReconnect:1"])])
                 st = "down" if (e.startswith("streamError") or e in ("dClosed", "disconnectReq")) else st
             evs.append(e)
             if st == "down" and r.random() < 0.6:
@@ -728,6 +731,10 @@ def run_case(chk, stream, case):
             elif ev == "appSend":
                 from yowsup.layers.protocol_presence.protocolentities import AvailablePresenceProtocolEntity
                 iface.send(AvailablePresenceProtocolEntity())
+            elif ev.startswith("setReconnect"):
+                # the application changes the option at run time
+                from yowsup.layers.interface import YowInterfaceLayer
+                stack.setProp(YowInterfaceLayer.PROP_RECONNECT_ON_STREAM_ERR, ev.endswith(":1"))
         except InfraError:
             raise
         except Exception as e:
@@ -799,7 +806,10 @@ def check_trace(case, executed, trace):
     conn_up_d = None
     reconnect_expected = False
     unanswered = 0
+    opt_now = bool(case["opt"]["reconnect"])        # the reconnect option in force (the application may change it: setReconnect)
     for i, (ev, obs) in enumerate(trace):
+        if ev.startswith("setReconnect"):
+            opt_now = ev.endswith(":1")
         ups = obs.count("up")
         downs = obs.count("downNear")
         if ev.startswith("connect") or ev.startswith("dConnected"):
@@ -857,7 +867,7 @@ def check_trace(case, executed, trace):
                 out.append(oracle("C16:stream-error-not-delivered-or-closed:" + k, "history %s: after the %s stream error the stack did: %s (expected the error entity "
                                   "at the application and the connection closed)" % (executed[:i + 1], k, obs)))
                 break
-            reconnect_expected = bool(case["opt"]["reconnect"]) and k != "conflict"
+            reconnect_expected = opt_now and k != "conflict"
         if ev in ("appSend",) and any(o.startswith("written") for o in obs) and not up_open:
             out.append(oracle("C16:write-while-down", "history %s: data written to a connection that is down" % executed[:i + 1]))
             break
